@@ -17,7 +17,7 @@ pub enum Command { Encrypt, Decrypt, PassEncrypt, PassDecrypt, KeyGenerate }
 pub enum Cause {
     BadArgs(u8), MissingInput, MissingKeyring, KeyringEnvUnset, MalformedKeyring(u8), KeyringNotUtf8, UnknownRecipient, UnknownSender, NoPrivateKey, WrongPassword,
     EnvPassUnset, NoTerminal, RefusedKeyExchange(u8), BadChecksumKey, SameInOut,
-    WrongHeader(u8), CorruptHeader(u8), ShortHeader(u8), WrongRecipient, CorruptFirstChunk(u8), TruncatedFirstChunk(u8), LaterChunk { j: u8, truncate: bool }, InvalidName(u8),
+    WrongHeader(u8), CorruptHeader(u8), ShortHeader(u8), WrongRecipient, CorruptFirstChunk(u8), TruncatedFirstChunk(u8), LaterChunk { j: u8, truncate: bool }, InvalidName(u8), TrailingData(u8),
 }
 #[derive(Clone, Debug, Serialize, Deserialize)]
 pub struct Case { pub cmd: Command, pub cause: Cause, pub prior: bool, pub inst: u64 }
@@ -32,9 +32,9 @@ pub fn applicable(cmd: Command) -> Vec<Cause> {
     let mut v = Vec::new();
     match cmd {
         Encrypt => { for i in 0..4 { v.push(BadArgs(i)); } v.extend([MissingInput, MissingKeyring, KeyringEnvUnset, KeyringNotUtf8, UnknownRecipient, UnknownSender, NoPrivateKey, WrongPassword, EnvPassUnset, NoTerminal, BadChecksumKey, SameInOut]); for i in 0..4 { v.push(MalformedKeyring(i)); } for i in 0..14 { v.push(RefusedKeyExchange(i)); } }
-        Decrypt => { for i in 0..4 { v.push(BadArgs(i)); } v.extend([MissingInput, MissingKeyring, KeyringEnvUnset, KeyringNotUtf8, UnknownRecipient, NoPrivateKey, WrongPassword, EnvPassUnset, NoTerminal, WrongRecipient, SameInOut]); for i in 0..4 { v.push(MalformedKeyring(i)); } for i in 0..5 { v.push(WrongHeader(i)); } for i in 0..6 { v.push(CorruptHeader(i)); } for i in 0..3 { v.push(ShortHeader(i)); } for i in 0..4 { v.push(CorruptFirstChunk(i)); } for i in 0..3 { v.push(TruncatedFirstChunk(i)); } for j in 1..4 { v.push(LaterChunk { j, truncate: false }); v.push(LaterChunk { j, truncate: true }); } }
+        Decrypt => { for i in 0..4 { v.push(BadArgs(i)); } v.extend([MissingInput, MissingKeyring, KeyringEnvUnset, KeyringNotUtf8, UnknownRecipient, NoPrivateKey, WrongPassword, EnvPassUnset, NoTerminal, WrongRecipient, SameInOut]); for i in 0..4 { v.push(MalformedKeyring(i)); } for i in 0..5 { v.push(WrongHeader(i)); } for i in 0..6 { v.push(CorruptHeader(i)); } for i in 0..3 { v.push(ShortHeader(i)); } for i in 0..4 { v.push(CorruptFirstChunk(i)); } for i in 0..3 { v.push(TruncatedFirstChunk(i)); } for j in 1..4 { v.push(LaterChunk { j, truncate: false }); v.push(LaterChunk { j, truncate: true }); } for i in 0..2 { v.push(TrailingData(i)); } }
         PassEncrypt => { for i in 0..3 { v.push(BadArgs(i)); } v.extend([MissingInput, EnvPassUnset, NoTerminal, SameInOut]); }
-        PassDecrypt => { for i in 0..3 { v.push(BadArgs(i)); } v.extend([MissingInput, EnvPassUnset, NoTerminal, WrongPassword, SameInOut]); for i in 0..5 { v.push(WrongHeader(i)); } for i in 0..2 { v.push(CorruptHeader(i)); } for i in 0..3 { v.push(ShortHeader(i)); } for i in 0..4 { v.push(CorruptFirstChunk(i)); } for i in 0..3 { v.push(TruncatedFirstChunk(i)); } for j in 1..4 { v.push(LaterChunk { j, truncate: false }); v.push(LaterChunk { j, truncate: true }); } }
+        PassDecrypt => { for i in 0..3 { v.push(BadArgs(i)); } v.extend([MissingInput, EnvPassUnset, NoTerminal, WrongPassword, SameInOut]); for i in 0..5 { v.push(WrongHeader(i)); } for i in 0..2 { v.push(CorruptHeader(i)); } for i in 0..3 { v.push(ShortHeader(i)); } for i in 0..4 { v.push(CorruptFirstChunk(i)); } for i in 0..3 { v.push(TruncatedFirstChunk(i)); } for j in 1..4 { v.push(LaterChunk { j, truncate: false }); v.push(LaterChunk { j, truncate: true }); } for i in 0..2 { v.push(TrailingData(i)); } }
         KeyGenerate => { v.extend([BadArgs(0), BadArgs(1), EnvPassUnset, NoTerminal]); for i in 0..3 { v.push(InvalidName(i)); } }
     }
     v
@@ -69,7 +69,7 @@ pub fn check(c: &Case) -> CheckResult {
     let authentic = match c.cmd { Decrypt => key_file(c.inst, &plain, &id.bob, &id.alice), PassDecrypt => pass_file(c.inst, &plain), _ => vec![] };
     let hdr = if c.cmd == Decrypt { 132 } else { 36 };
     let rec_start = |j: usize| hdr + (0..j).map(|i| 32 + CHUNKS[i]).sum::<usize>();
-    let mut input = authentic.clone(); let mut expect_prefix: Option<usize> = None;
+    let mut input = authentic.clone(); let mut expect_prefix: Option<usize> = None; let mut any_whole_chunk_prefix = false;
     let sel = c.inst as usize;
     match &c.cause {
         WrongHeader(0) => input = if c.cmd == Decrypt { pass_file(c.inst, &plain_for(PassDecrypt, c.inst)) } else { key_file(c.inst, &plain, &id.bob, &id.alice) },
@@ -82,6 +82,7 @@ pub fn check(c: &Case) -> CheckResult {
         LaterChunk { j, truncate } => { let j = *j as usize; let s = rec_start(j); let len = 32 + CHUNKS[j];
             if *truncate { input.truncate(s + sel % len); } else { let off = 8 + sel % (len - 8); input[s + off] ^= 1 << (sel % 8); }
             expect_prefix = Some(CHUNKS[..j].iter().sum()); }
+        TrailingData(i) => { input.extend_from_slice(&gen::bytes_from(c.inst, if *i == 0 { 1 } else { 1 + sel % 90 })); any_whole_chunk_prefix = true; }
         _ => {}
     }
     if matches!(c.cmd, Decrypt | PassDecrypt) { sb.write("in.ktl", &input); }
@@ -121,6 +122,13 @@ pub fn check(c: &Case) -> CheckResult {
     ensure!(r.code == Some(1), "a failing invocation ({:?} / {:?}) exited with {:?} instead of 1; stderr: {}", c.cmd, c.cause, r.code, r.stderr_s());
     ensure!(r.stderr_s().lines().any(|l| l.starts_with("Error:")), "exit status 1 without an 'Error:' line: {:?}", r.stderr_s());
     let after = sb.read(out_name);
+    if any_whole_chunk_prefix {
+        // bytes after the final chunk: the command fails (exit 1, checked above); what is at the output path is a prefix of the
+        // plaintext made of whole chunks (which one is not prescribed), or the path is as it was
+        let bounds: Vec<usize> = (0..=CHUNKS.len()).map(|k| CHUNKS[..k].iter().sum()).collect();
+        if after != prior_content { let a = after.clone().unwrap_or_default(); ensure!(bounds.contains(&a.len()) && a[..] == plain[..a.len()], "after a file with trailing bytes the output path holds {} bytes that are not a whole-chunk prefix of the plaintext", a.len()); }
+        return ok(true, format!("{:?}/TrailingData/{}", c.cmd, if c.prior { "present" } else { "absent" }));
+    }
     match expect_prefix {
         Some(n) => { ensure!(after.as_deref() == Some(&plain[..n]), "a later chunk failed: the output path should hold exactly the {} authenticated bytes, it holds {:?} bytes", n, after.as_ref().map(|a| a.len())); }
         None => {
